@@ -27,6 +27,7 @@ This class provides synchronous access to log data from the Crazyflie.
 It acts as an iterator and returns the next value on each iteration.
 If no value is available it blocks until log data is received again.
 """
+from queue import Empty
 from queue import Queue
 
 from cflib.crazyflie.syncCrazyflie import SyncCrazyflie
@@ -59,6 +60,14 @@ class SyncLogger:
     def connect(self):
         if self._is_connected:
             raise Exception('Already connected')
+
+        # Start every session with an empty queue. What a previous session
+        # left behind (unread samples, DISCONNECT_EVENT) must not be returned.
+        try:
+            while True:
+                self._queue.get_nowait()
+        except Empty:
+            pass
 
         self._cf.disconnected.add_callback(self._disconnected)
         for config in self._log_config:
